@@ -8,8 +8,10 @@
     held_flag_is_loader_flag enabled_runs mixed_config_includes_run
     off_spelling_any_case parse_deny_iff_documented documented_off_denied
     plugin_tables_agree spellings_probed lower_model_exact
+    graph_disabled_no_exec flag_only_affects_code_blocks parse_ignores_flag_without_code
 -/
 import Genshi.Model.Exec
+import Genshi.Lemmas.ExecGraph
 namespace Genshi.Props.C14
 open Genshi.Exec Genshi.Gen.Exec
 
@@ -153,11 +155,13 @@ theorem lower_model_exact :
 
 theorem pluginByFlag_false_check (p : Plugin) :
     (pluginByFlag p false).all (fun row => decide
-      ((row.fileV = .reject ∧ row.fileLF = some false) ∧ (row.strV = .reject ∧ row.strLF = some false))) = true := by
+      ((row.fileV = .reject ∧ row.fileLF = some false) ∧ (row.strV = .reject ∧ row.strLF = some false)
+        ∧ row.fileF = some false ∧ row.strF = some false)) = true := by
   cases p <;> decide +kernel
 
 theorem pluginByFlag_false_safe (p : Plugin) (row : PluginRow) (h : pluginByFlag p false = some row) :
-    (row.fileV = .reject ∧ row.fileLF = some false) ∧ (row.strV = .reject ∧ row.strLF = some false) := by
+    (row.fileV = .reject ∧ row.fileLF = some false) ∧ (row.strV = .reject ∧ row.strLF = some false)
+      ∧ row.fileF = some false ∧ row.strF = some false := by
   have hc := pluginByFlag_false_check p
   rw [h] at hc
   simpa using hc
@@ -207,9 +211,9 @@ theorem rootNode_safe (cfg : Config) (r : Root) (n : Node) (hd : r.disabled cfg)
           | none => simp [hr] at hn
           | some row =>
               have hs := pluginByFlag_false_safe p row hr
-              simp only [hr, Option.bind_some, hs.2.2, Option.map_some] at hn
+              simp only [hr, Option.bind_some, hs.2.1.2, Option.map_some] at hn
               cases hn
-              exact ⟨hs.2.1, rfl⟩
+              exact ⟨hs.2.1.1, rfl⟩
 
 /-! ### the property -/
 
@@ -304,6 +308,329 @@ theorem mixed_config_includes_run :
     execAllowed ⟨.off, .on, .absent, false⟩ (.incl (.root (.direct .markup .str false)) .same) = true := by
   decide
 
+/-! ### the include-graph model: arbitrary (cyclic) include graphs, caches, histories -/
+
+theorem st0_clean (ar : Bool) : StClean (st0 false ar) := ⟨rfl, by intro k t h; simp [st0] at h⟩
+
+theorem mkLoader_disabled (cfg : Config) (root : Root) (st : St) (hd : root.disabled cfg)
+    (h : mkLoader cfg root = .ok st) : StClean st ∧ st.sentinel = [] := by
+  cases root with
+  | direct c s own =>
+      cases own with
+      | true =>
+          have ht : cfg.tmpl = .off := hd
+          simp only [mkLoader, ht] at h
+          cases c <;> cases s <;> simp [directLoaderFlag] at h <;> (subst h; exact ⟨st0_clean _, rfl⟩)
+      | false =>
+          obtain ⟨ht, hl⟩ : cfg.tmpl = .off ∧ cfg.loader = .off := hd
+          simp only [mkLoader, ht, hl] at h
+          cases c <;> cases s <;> simp [directLoaderFlag] at h <;> (subst h; exact ⟨st0_clean _, rfl⟩)
+  | load c d =>
+      have hl : cfg.loader = .off := hd
+      simp only [mkLoader, hl] at h
+      cases c <;> cases d <;> simp [loaderFlag] at h <;> (subst h; exact ⟨st0_clean _, rfl⟩)
+  | pluginFile p =>
+      have hp : parseOpt cfg.opt = .deny := documented_off_denied _ hd
+      simp only [mkLoader, hp] at h
+      cases h; exact ⟨st0_clean _, rfl⟩
+  | pluginString p =>
+      have hp : parseOpt cfg.opt = .deny := documented_off_denied _ hd
+      simp only [mkLoader, hp] at h
+      cases h; exact ⟨st0_clean _, rfl⟩
+
+theorem directFlag_off (c : Cls) (s : Src) (tf : Bool) :
+    (directFlag c s .off none = some tf → tf = false) ∧
+    (directFlag c s .off (some .off) = some tf → tf = false) := by
+  cases c <;> cases s <;> simp [directFlag] <;> (intro h; exact h.symm)
+
+theorem mkRoot_disabled (cfg : Config) (fs : FS) (rn : Nat) (st st' : St) (root : Root) (t : Tmpl)
+    (stack : List Nat) (hd : root.disabled cfg) (hc : StClean st)
+    (h : mkRoot cfg fs rn st root = .ok (st', t, stack)) :
+    StClean st' ∧ noCode t.items = true ∧ st'.sentinel = st.sentinel := by
+  cases root with
+  | direct c s own =>
+      simp only [mkRoot] at h
+      cases hf : fs.lookup rn with
+      | none => simp [hf] at h
+      | some f =>
+          cases hdf : directFlag c s cfg.tmpl (if own = true then none else some cfg.loader) with
+          | none => simp [hdf] at h
+          | some tf =>
+              simp only [hdf, hf] at h
+              have htf : tf = false := by
+                cases own with
+                | true =>
+                    have ht : cfg.tmpl = .off := hd
+                    simp only [ht] at hdf
+                    exact (directFlag_off c s tf).1 hdf
+                | false =>
+                    obtain ⟨ht, hl⟩ : cfg.tmpl = .off ∧ cfg.loader = .off := hd
+                    simp [ht, hl] at hdf
+                    exact (directFlag_off c s tf).2 hdf
+              subst htf
+              cases hp : parseFile c false rn f with
+              | error e => simp [hp] at h
+              | ok t1 =>
+                  simp only [hp] at h
+                  cases h
+                  exact ⟨hc, parse_off_clean c rn f t hp, rfl⟩
+  | load c d =>
+      simp only [mkRoot] at h
+      cases hl : load fs st rn c with
+      | error e => simp [hl] at h
+      | ok pr =>
+          obtain ⟨s1, t1⟩ := pr
+          simp only [hl] at h
+          cases h
+          obtain ⟨h1, h2, h3, _, _⟩ := load_clean fs st st' rn c false t hc hl
+          exact ⟨h1, h2, h3⟩
+  | pluginFile p =>
+      simp only [mkRoot] at h
+      cases hpc : pluginCls p with
+      | none => simp [hpc] at h
+      | some c =>
+          simp only [hpc] at h
+          cases hl : load fs st rn c with
+          | error e => simp [hl] at h
+          | ok pr =>
+              obtain ⟨s1, t1⟩ := pr
+              simp only [hl] at h
+              cases h
+              obtain ⟨h1, h2, h3, _, _⟩ := load_clean fs st st' rn c false t hc hl
+              exact ⟨h1, h2, h3⟩
+  | pluginString p =>
+      simp only [mkRoot] at h
+      rw [hc.1] at h
+      cases hpc : pluginCls p with
+      | none => simp [hpc] at h
+      | some c =>
+          cases hr : pluginByFlag p false with
+          | none => simp [hpc, hr] at h
+          | some row =>
+              cases hf : fs.lookup rn with
+              | none => simp [hpc, hr, hf] at h
+              | some f =>
+                  have hs := pluginByFlag_false_safe p row hr
+                  simp only [hpc, hr, hf, hs.2.2.2, hs.2.1.2] at h
+                  cases hp : parseFile c false rn f with
+                  | error e => simp [hp] at h
+                  | ok t1 =>
+                      simp only [hp] at h
+                      cases h
+                      refine ⟨⟨rfl, ?_⟩, ?_, rfl⟩
+                      · intro k t2 hk; simp [st0] at hk
+                      · exact parse_off_clean c rn f t1 hp
+
+/-- **Disabling code execution disables it on every path — over arbitrary include graphs**:
+    for every file system of templates (any include graph, cycles and diamonds included), every
+    history of earlier loads through the same loader, every fuel and both include modes, a root
+    whose flags are all off never moves the sentinel: no code block of the root, of anything it
+    includes at run time or at prepare time, or of anything loaded before through the same
+    loader, is executed. -/
+theorem graph_disabled_no_exec (fuel pf : Nat) (cfg : Config) (root : Root) (fs : FS) (rn : Nat)
+    (hist : List Nat) (hd : root.disabled cfg) : (run fuel pf cfg root fs rn hist).sentinel = [] := by
+  unfold run
+  cases hl : mkLoader cfg root with
+  | error e => rfl
+  | ok st =>
+      obtain ⟨hc, hs⟩ := mkLoader_disabled cfg root st hd hl
+      simp only
+      have hh : StClean (afterHistory fuel pf fs root st hist).1 ∧
+          (afterHistory fuel pf fs root st hist).1.sentinel = [] := by
+        unfold afterHistory
+        cases root.usesLoader with
+        | true =>
+            have := runHistory_clean fuel pf fs hist st hc
+            exact ⟨this.1, this.2.trans hs⟩
+        | false => exact ⟨hc, hs⟩
+      obtain ⟨hch, hsh⟩ := hh
+      generalize afterHistory fuel pf fs root st hist = h at hch hsh
+      unfold finish
+      cases hm : mkRoot cfg fs rn h.1 root with
+      | error e => exact hsh
+      | ok pr =>
+          obtain ⟨st', t, stack⟩ := pr
+          obtain ⟨hc', ht, hs'⟩ := mkRoot_disabled cfg fs rn h.1 st' root t stack hd hch hm
+          have := gen_clean fuel pf fs true t.cls stack t st' hc' ht
+          exact this.2.1.trans (hs'.trans hsh)
+
+/-! ### templates without code blocks render identically whether execution is allowed or not -/
+
+/-- parse level: for a source without code blocks `_parse` does not read the flag -/
+theorem parse_ignores_flag_without_code (c : Cls) (name : Nat) (f : File) (h : noCode f.items = true)
+    (b b' : Bool) : parseFile c b name f = parseFile c b' name f :=
+  parse_noCode_flag c name f h b b'
+
+/-- which (class, source kind) pairs exist: a parsed stream is a markup-only source -/
+def srcOk (c : Cls) (s : Src) : Bool :=
+  match c, s with
+  | .newtext, .stream => false
+  | .oldtext, .stream => false
+  | _, _ => true
+
+theorem directFlag_isSome (c : Cls) (s : Src) (q : Req) (ld : Option Req) :
+    (directFlag c s q ld).isSome = srcOk c s ∧ (directLoaderFlag c s q ld).isSome = srcOk c s := by
+  rcases ld with _ | l
+  · cases c <;> cases s <;> cases q <;> exact ⟨rfl, rfl⟩
+  · cases c <;> cases s <;> cases q <;> cases l <;> exact ⟨rfl, rfl⟩
+
+theorem loaderFlag_isSome (c : Cls) (d : Bool) (q : Req) : (loaderFlag c d q).isSome = true := by
+  cases c <;> cases d <;> cases q <;> rfl
+
+theorem pluginRow_total_check (p : Plugin) (b : Bool) :
+    (pluginByFlag p b).any (fun row => row.strF.isSome && row.strLF.isSome) = true := by
+  cases p <;> cases b <;> decide +kernel
+
+theorem pluginRow_total (p : Plugin) (b : Bool) :
+    ∃ row tf lf, pluginByFlag p b = some row ∧ row.strF = some tf ∧ row.strLF = some lf := by
+  have h := pluginRow_total_check p b
+  cases hr : pluginByFlag p b with
+  | none => rw [hr] at h; cases h
+  | some row =>
+      rw [hr] at h
+      simp only [Option.any_some, Bool.and_eq_true] at h
+      obtain ⟨h1, h2⟩ := h
+      cases hf : row.strF with
+      | none => rw [hf] at h1; cases h1
+      | some tf =>
+          cases hl : row.strLF with
+          | none => rw [hl] at h2; cases h2
+          | some lf => exact ⟨row, tf, lf, rfl, hf, hl⟩
+
+/-- reload mode of the loader a root works with -/
+def rootAR (root : Root) (ar : Bool) : Bool :=
+  match root with
+  | .direct _ _ true => false
+  | _ => ar
+
+theorem mkLoader_shape (cfg : Config) (root : Root) (st : St) (h : mkLoader cfg root = .ok st) :
+    st = st0 st.flag (rootAR root cfg.autoReload) := by
+  cases root with
+  | direct c s own =>
+      simp only [mkLoader] at h
+      cases hd : directLoaderFlag c s cfg.tmpl (if own = true then none else some cfg.loader) with
+      | none => simp [hd] at h
+      | some lf => simp only [hd] at h; cases h; cases own <;> rfl
+  | load c d =>
+      simp only [mkLoader] at h
+      cases hd : loaderFlag c d cfg.loader with
+      | none => simp [hd] at h
+      | some lf => simp only [hd] at h; cases h; rfl
+  | pluginFile p =>
+      simp only [mkLoader] at h
+      cases hp : parseOpt cfg.opt <;> simp only [hp] at h <;> first | (cases h; rfl) | cases h
+  | pluginString p =>
+      simp only [mkLoader] at h
+      cases hp : parseOpt cfg.opt <;> simp only [hp] at h <;> first | (cases h; rfl) | cases h
+
+/-- bringing the root into existence under another configuration, from a loader state that
+    differs in the flag only, over code-free files: same error, or the same template object and
+    a state that again differs in the flag only -/
+theorem mkRoot_flag (cfg cfg' : Config) (fs : FS) (hfs : FsNoCode fs) (rn : Nat) (st : St) (b : Bool)
+    (root : Root) :
+    ∃ b', mkRoot cfg' fs rn (st.setFlag b) root =
+      match mkRoot cfg fs rn st root with
+      | .error e => .error e
+      | .ok (s, t, k) => .ok (s.setFlag b', t, k) := by
+  cases root with
+  | direct c s own =>
+      refine ⟨b, ?_⟩
+      simp only [mkRoot]
+      have h1 := (directFlag_isSome c s cfg.tmpl (if own = true then none else some cfg.loader)).1
+      have h2 := (directFlag_isSome c s cfg'.tmpl (if own = true then none else some cfg'.loader)).1
+      cases hd : directFlag c s cfg.tmpl (if own = true then none else some cfg.loader) with
+      | none =>
+          rw [hd] at h1
+          cases hd' : directFlag c s cfg'.tmpl (if own = true then none else some cfg'.loader) with
+          | none => rfl
+          | some tf' => rw [hd', ← h1] at h2; cases h2
+      | some tf =>
+          rw [hd] at h1
+          cases hd' : directFlag c s cfg'.tmpl (if own = true then none else some cfg'.loader) with
+          | none => rw [hd', ← h1] at h2; cases h2
+          | some tf' =>
+              cases hf : fs.lookup rn with
+              | none => rfl
+              | some f =>
+                  simp only
+                  rw [parse_noCode_flag c rn f (hfs rn f hf) tf' tf]
+                  cases parseFile c tf rn f with
+                  | error e => rfl
+                  | ok t => rfl
+  | load c d =>
+      refine ⟨b, ?_⟩
+      simp only [mkRoot]
+      rw [load_flag fs hfs st rn c false b]
+      cases load fs st rn c with
+      | error e => rfl
+      | ok pr => obtain ⟨s1, t1⟩ := pr; rfl
+  | pluginFile p =>
+      refine ⟨b, ?_⟩
+      simp only [mkRoot]
+      cases pluginCls p with
+      | none => rfl
+      | some c =>
+          simp only
+          rw [load_flag fs hfs st rn c false b]
+          cases load fs st rn c with
+          | error e => rfl
+          | ok pr => obtain ⟨s1, t1⟩ := pr; rfl
+  | pluginString p =>
+      obtain ⟨row, tf, lf, hr, htf, hlf⟩ := pluginRow_total p st.flag
+      obtain ⟨row', tf', lf', hr', htf', hlf'⟩ := pluginRow_total p b
+      refine ⟨lf', ?_⟩
+      simp only [mkRoot]
+      have hb : (st.setFlag b).flag = b := rfl
+      rw [hb, hr, hr']
+      cases pluginCls p with
+      | none => rfl
+      | some c =>
+          cases hf : fs.lookup rn with
+          | none => rfl
+          | some f =>
+              simp only [htf, hlf, htf', hlf']
+              rw [parse_noCode_flag c rn f (hfs rn f hf) tf' tf]
+              cases parseFile c tf rn f with
+              | error e => rfl
+              | ok t => rfl
+
+/-- **Templates without code blocks render identically whether execution is allowed or not**:
+    over a file system without code blocks, two configurations that differ in the flags only
+    (constructor flag, loader flag, plugin option — neither being a configuration error) give
+    the same outcome of the whole experiment: same error or same output, same history — for
+    every include graph, fuel, include mode and history. -/
+theorem flag_only_affects_code_blocks (fuel pf : Nat) (cfg cfg' : Config) (root : Root) (fs : FS)
+    (rn : Nat) (hist : List Nat) (hfs : FsNoCode fs) (har : cfg.autoReload = cfg'.autoReload)
+    (st st' : St) (h1 : mkLoader cfg root = .ok st) (h2 : mkLoader cfg' root = .ok st') :
+    run fuel pf cfg root fs rn hist = run fuel pf cfg' root fs rn hist := by
+  unfold run
+  rw [h1, h2]
+  simp only
+  have hst : st' = st.setFlag st'.flag := by
+    rw [mkLoader_shape cfg' root st' h2, mkLoader_shape cfg root st h1, har]; rfl
+  rw [hst]
+  generalize st'.flag = b
+  -- the history
+  have hh : afterHistory fuel pf fs root (st.setFlag b) hist =
+      ((afterHistory fuel pf fs root st hist).1.setFlag b, (afterHistory fuel pf fs root st hist).2) := by
+    unfold afterHistory
+    cases root.usesLoader with
+    | true => exact runHistory_flag fuel pf fs hfs b hist st
+    | false => rfl
+  rw [hh]
+  generalize afterHistory fuel pf fs root st hist = h
+  unfold finish
+  obtain ⟨b', hm⟩ := mkRoot_flag cfg cfg' fs hfs rn h.1 b root
+  simp only
+  rw [hm]
+  cases mkRoot cfg fs rn h.1 root with
+  | error e => rfl
+  | ok pr =>
+      obtain ⟨s, t, k⟩ := pr
+      simp only
+      rw [gen_flag fuel pf fs hfs b' true t.cls k t s]
+      rfl
+
 /-! ### non-vacuity of the hypotheses -/
 
 example : (Root.direct .newtext .bytes true).disabled ⟨.off, .dflt, .absent, false⟩ := rfl
@@ -312,5 +639,41 @@ example : node ⟨.off, .off, .absent, true⟩ (.incl (.incl (.root (.direct .ma
     = some ⟨.newtext, .reject, false, true⟩ := by decide
 example : ['F', 'a', 'L', 's', 'E'] ∈ offSpellings := by decide
 example : parseOpt (.str ['n', 'o', ' ']) = .confError := by decide
+
+
+/-- a cyclic include graph: the markup root includes a text template that runs a code block twice
+    and then includes itself at run time -/
+def exFs : FS :=
+  [(0, ⟨.markup, [.text 1, .incl 1 .text false, .code 5 1]⟩),
+   (1, ⟨.newtext, [.code 7 2, .expr 2, .incl 1 .same true]⟩)]
+
+-- with execution allowed the blocks run (until the recursion is cut) …
+example : (run 3 5 ⟨.dflt, .dflt, .absent, true⟩ (.load .markup false) exFs 0 []).sentinel = [7, 7, 7, 7]
+    ∧ (run 3 5 ⟨.dflt, .dflt, .absent, true⟩ (.load .markup false) exFs 0 []).err = some .diverge := by decide
+-- … with the loader's flag off the root is rejected …
+example : run 3 5 ⟨.dflt, .off, .absent, true⟩ (.load .markup false) exFs 0 []
+    = ⟨some (.syntax 0), [], [], []⟩ := by decide
+
+def exFs2 : FS :=
+  [(0, ⟨.markup, [.text 1, .incl 1 .text false, .text 3]⟩),
+   (1, ⟨.newtext, [.code 7 2, .expr 2, .incl 1 .same true]⟩)]
+
+-- … a code-free root gets as far as the include, the included file is rejected, nothing runs …
+example : run 3 5 ⟨.dflt, .off, .absent, true⟩ (.load .markup false) exFs2 0 []
+    = ⟨some (.syntax 1), [], [1], []⟩ := by decide
+-- … also when it was (unsuccessfully) loaded before through the same loader, in inline mode
+example : run 3 5 ⟨.dflt, .off, .absent, false⟩ (.load .markup false) exFs2 0 [1]
+    = ⟨some (.syntax 1), [], [], [some (.syntax 1)]⟩ := by decide
+-- the hypotheses of `flag_only_affects_code_blocks` are satisfiable on a file system with includes
+example : FsNoCode [(0, ⟨.markup, [.text 1, .incl 1 .text false]⟩), (1, ⟨.newtext, [.expr 2]⟩)] := by
+  intro n f h
+  simp only [List.lookup] at h
+  by_cases h0 : n = 0
+  · subst h0; simp at h; subst h; rfl
+  · by_cases h1 : n = 1
+    · subst h1; simp at h; subst h; rfl
+    · have e0 : (n == 0) = false := by simpa using h0
+      have e1 : (n == 1) = false := by simpa using h1
+      simp [e0, e1] at h
 
 end Genshi.Props.C14
